@@ -4,8 +4,8 @@ import RichModel.Drv.Proto
 Driver handlers for property C06 (Style algebra / text round trip / hashing).
 
 Wire formats
-* flags   : six characters 0/1 in the field order of `StyleVariant`
-            (rgbValueError addHash fromColorHash withoutColorHash updateLinkHash updateLinkDef)
+* flags   : seven characters 0/1 in the field order of `StyleVariant`
+            (rgbValueError addHash fromColorHash withoutColorHash updateLinkHash updateLinkDef emptyLink)
 * string  : space separated decimal code points ("" = empty)
 * optstr  : `-` (None) or `=` followed by a string
 * color   : `-` (None) or `name/type/number/triplet`, number `-`|n, triplet `-`|r.g.b
@@ -14,20 +14,26 @@ Wire formats
 * route   : prefix term, tokens separated by `;`
     N | I;colorarg;colorarg;kw13;optstr | F;color;color | P;string | A;r;r | O;r | C;r | U;optstr;r
     | W;r | T;r | H;n;r…r | B;r          colorarg = `-` | `S:`string | `C:`color
-Any string containing a code point >= 128 makes the whole request `unmodelled`.
+Any string containing GREEK CAPITAL SIGMA (context-dependent `lower()`) makes the whole request `unmodelled`.
+* tables_lawful lo hi -> `ok` | first code point in [lo,hi) at which `StrTables.real` breaks `Lawful`
+* str_table cp       -> isspace(0/1) decimal(-|v) lower(code points) of one code point
+* str_table_counts   -> number of white-space / decimal / lower-mapped code points in the tables
 -/
 namespace RichModel.Drv.C06
 open RichModel RichModel.Proto RichModel.AsciiStr
 
 def decFlags (s : String) : Option StyleVariant :=
   match s.toList.map (· == '1') with
-  | [a, b, c, d, e, f] => some ⟨a, b, c, d, e, f⟩
+  | [a, b, c, d, e, f, g] => some ⟨a, b, c, d, e, f, g⟩
   | _ => none
 
 /-- A string of the request; `none` if it leaves the modelled (ASCII) domain. -/
 def decS (s : String) : Option (List Char) :=
   let cs := decStr s
-  if allAscii cs then some cs else none
+  if StrTables.lowerUnmodelled cs then none else some cs
+
+/-- The character tables the model is compared with: those of the running Python. -/
+def T : StrTables := StrTables.real
 
 def decOptS (s : String) : Option (Option (List Char)) :=
   if s == "-" then some none
@@ -90,7 +96,7 @@ def encStyle (s : Style) : String :=
 def encState (v : StyleVariant) (s : Style) : String :=
   encStyle s ++ "|n" ++ encBool s.isNull ++ "|d" ++ encOptS s.styleDef ++ "|s" ++ encStr s.str ++
     "|a" ++ String.join ((List.range 13).map fun i => encTri (s.attr i)) ++
-    "|h" ++ encBool (decide (s.hashKey = s.fieldsKey)) ++ "|w" ++ encBool (Style.wf v s)
+    "|h" ++ encBool (decide (s.hashKey = s.fieldsKey)) ++ "|w" ++ encBool (Style.wfT T v s)
 
 def encErr : StyleErr → String
   | .colorParse => "err:ColorParseError"
@@ -159,9 +165,9 @@ mutual
 /-- Evaluate a route with the model's constructors, left to right (first exception wins). -/
 partial def evalRoute (v : StyleVariant) : Route → Except StyleErr Style
   | .null => .ok Style.null
-  | .init c b kw l => Style.init v c b kw l
+  | .init c b kw l => Style.initT T v c b kw l
   | .fromColor c b => .ok (Style.fromColor v c b)
-  | .parse s => Style.parse v s
+  | .parse s => Style.parseT T v s
   | .add a b => do
     let a ← evalRoute v a
     let b ← evalRoute v b
@@ -174,7 +180,7 @@ partial def evalRoute (v : StyleVariant) : Route → Except StyleErr Style
   | .background a => do
     -- `background_style`: `Style(bgcolor=self.bgcolor)` (style.py:382-384)
     let a ← evalRoute v a
-    Style.init v none (a.bgcolor.map .color) [] none
+    Style.initT T v none (a.bgcolor.map .color) [] none
   | .chain rs => do
     let ss ← evalRoutes v rs
     Style.chain v ss
@@ -193,12 +199,36 @@ def decFullRoute (s : String) : Option Route :=
 
 def answer (f : Option String) : String := f.getD "unmodelled"
 
+/-- first code point in [lo, hi) (surrogates skipped) where `p` fails -/
+def firstBad (p : Char → Bool) (lo hi : Nat) : Option Nat := Id.run do
+  let mut bad := none
+  for cp in [lo:hi] do
+    if bad.isNone && !(0xD800 ≤ cp && cp ≤ 0xDFFF) then
+      if !p (Char.ofNat cp) then bad := some cp
+  return bad
+
+def runLen (rs : List (Nat × Nat × Nat)) : Nat := (rs.map fun r => r.2.1 - r.1 + 1).sum
+
 def handlers : List (String × (List String → String)) := [
+  ("tables_lawful", fun a => match a with
+    | [lo, hi] =>
+      match firstBad T.lawfulAt (decNat lo) (decNat hi) with
+      | none => if T.maxDigits == 0 || 3 ≤ T.maxDigits then "ok" else "bad:maxDigits"
+      | some cp => "bad:" ++ toString cp
+    | _ => "bad-args"),
+  ("str_table", fun a => match a with
+    | [cp] =>
+      let c := Char.ofNat (decNat cp)
+      encBool (T.isSpace c) ++ " " ++ encOptNat (T.decimal c) ++ " " ++ encStr (T.lowerChar c)
+    | _ => "bad-args"),
+  ("str_table_counts", fun _ =>
+    toString Gen.strWhitespace.length ++ " " ++ toString (runLen Gen.strDecimalRuns) ++ " " ++
+      toString (runLen Gen.strLowerRuns + Gen.strLowerSpecial.length) ++ " " ++ toString T.maxDigits),
   ("color_parse", fun a => match a with
     | [fl, s] => answer do
       let v ← decFlags fl
       let s ← decS s
-      pure (match Color.parse v s with
+      pure (match Color.parseT T v s with
         | .ok c => "ok:" ++ encColor (some c)
         | .error e => encErr e)
     | _ => "bad-args"),
@@ -206,7 +236,7 @@ def handlers : List (String × (List String → String)) := [
     | [fl, s] => answer do
       let v ← decFlags fl
       let s ← decS s
-      pure (match Style.parse v s with
+      pure (match Style.parseT T v s with
         | .ok st => "ok:" ++ encStyle st ++ "|n" ++ encBool st.isNull
         | .error e => encErr e)
     | _ => "bad-args"),
@@ -214,7 +244,7 @@ def handlers : List (String × (List String → String)) := [
     | [fl, s] => answer do
       let v ← decFlags fl
       let s ← decS s
-      pure (match Style.normalize v s with
+      pure (match Style.normalizeT T v s with
         | .ok t => "ok:" ++ encStr t
         | .error e => encErr e)
     | _ => "bad-args"),
